@@ -201,3 +201,14 @@ Definition end_block (guard : bool) (now : Z) (w : world) : outcome world :=
 (* SubmitProposal followed (later, on another state) by enactment *)
 Definition lifecycle {S} (handler : S -> outcome S) (s_submit s_enact : S) : option (outcome S) :=
   if submit_accepts handler s_submit then Some (apply_proposal handler s_enact) else None.
+
+(* ------------------------------------------------------------------ UBI: UpsertUBI.Apply hard-cap check and the UBI end-blocker's mint *)
+(* Apply: ubiSum + amount*31556952/period > hardcap => error; all uint64 (wraps), integer division by period *)
+Definition ubi_apply (ubi_sum amount period hardcap : Z) : outcome Z :=
+  if period =? 0 then Panic "div-by-zero"
+  else if hardcap <? wrap64 (ubi_sum + wrap64 (amount * 31556952) / period) then Err "ubi sum overflows hardcap"
+  else Ok amount.
+(* ProcessUBIRecord: sdk.NewCoin(denom, NewInt(int64(amount)) * 1000000) -- NewCoin panics on a negative amount;
+   the cache context around it only discards ERRORS *)
+Definition ubi_mint (amount : Z) : outcome Z :=
+  let a := as_int64 amount * 1000000 in if a <? 0 then Panic "neg-coin" else Ok a.
